@@ -384,6 +384,7 @@ func runC11(x *Ctx) {
 
 	// ---------------- R5
 	policyMatchTable(x, "C11.R5", "(pkg/policy.Policy).PartialMatch", map[string]string{"True": "continue", "OptionalNoData": "continue", "NoData": "continue", "False": "false"})
+	runTotalLoops(x, "C11")
 }
 
 // constructorRules: each exported statement constructor returns a function (a closure today; a shared
